@@ -361,6 +361,16 @@ func (e *Engine) evalQuant(ctx *EvalCtx, x *Expr) (Val, error) {
 			return Val{}, err
 		}
 		rng := fmt.Sprintf("(and (<= %s %s) (< %s %s))", lo.S, bv, bv, hi.S)
+		// quantify over the absolute index of the first slice indexed by the bound variable, so that the
+		// solver can trigger on (select array k) without arithmetic in the pattern
+		if off, ok := sliceOffsetOf(body, bv); ok {
+			k := e.fresh("q.k")
+			body = strings.ReplaceAll(body, "(+ "+off+" "+bv+")", k)
+			sub := "(- " + k + " " + off + ")"
+			body = replaceSym(body, bv, sub)
+			rng = fmt.Sprintf("(and (<= (+ %s %s) %s) (< %s (+ %s %s)))", lo.S, off, k, k, hi.S, off)
+			bv = k
+		}
 		if q == "forall" {
 			return boolVal(fmt.Sprintf("(forall ((%s Int)) (=> %s %s))", bv, rng, body)), nil
 		}
@@ -1102,6 +1112,24 @@ func (e *Engine) evalCall(ctx *EvalCtx, x *Expr) (Val, error) {
 			return boolVal(fmt.Sprintf("(or (= (s.cap %s) 0) (> (s.arr %s) %s))", a.S, a.S, old.wm)), nil
 		}
 		return boolVal(fmt.Sprintf("(> %s %s)", a.S, old.wm)), nil
+	case "framed":
+		// the function's frame condition as a predicate (for loop invariants): nothing allocated before entry and
+		// outside `modifies` has changed since entry
+		if ctx.f == nil {
+			return Val{}, fmt.Errorf("framed() needs a function context")
+		}
+		top := ctx.f
+		for top.parent != nil {
+			top = top.parent
+		}
+		if top.contract == nil || top.entry == nil {
+			return Val{}, fmt.Errorf("framed() needs a contract")
+		}
+		var gs []string
+		for _, g := range e.frameGoals(top, top.contract, top.entry, ctx.st, top.fn) {
+			gs = append(gs, g[2])
+		}
+		return boolVal(sAnd(gs...)), nil
 	case "unchanged":
 		vs, err := args()
 		if err != nil {
@@ -1273,10 +1301,16 @@ func (e *Engine) applySpec(ctx *EvalCtx, sf *SpecFn, args []Val) (Val, error) {
 		return Val{T: rt, S: "(" + name + " " + strings.Join(terms, " ") + ")"}, nil
 	}
 	binds := map[string]Val{}
+	pure := true
+	var ptypes []types.Type
 	for i, p := range sf.Params {
 		t, err := e.resolveType(&c2, p.Type)
 		if err != nil {
 			return Val{}, err
+		}
+		ptypes = append(ptypes, t)
+		if !pureSorted(t) {
+			pure = false
 		}
 		_, a := e.coerceInts(Val{T: t}, args[i])
 		a.T = t
@@ -1286,6 +1320,49 @@ func (e *Engine) applySpec(ctx *EvalCtx, sf *SpecFn, args []Val) (Val, error) {
 			a.S = e.defineIfClosed(a.S, e.sortOf(t))
 		}
 		binds[p.Name] = a
+	}
+	if pure && len(sf.Params) > 0 {
+		// heap-independent specification function: an SMT function with a definitional axiom triggered on its applications
+		rt, err := e.resolveType(&c2, sf.Ret)
+		if err != nil {
+			return Val{}, err
+		}
+		name := "spec." + sf.Name
+		if e.mode == "bv" {
+			name += ".bv"
+		}
+		if !e.sc.declared["specfn:"+name] {
+			e.sc.declared["specfn:"+name] = true
+			var sorts, vars, decl []string
+			pb := map[string]Val{}
+			for i, p := range sf.Params {
+				v := "sp." + sanitizeSym(sf.Name) + "." + p.Name
+				sorts = append(sorts, e.sortOf(ptypes[i]))
+				vars = append(vars, v)
+				decl = append(decl, fmt.Sprintf("(%s %s)", v, e.sortOf(ptypes[i])))
+				pb[p.Name] = Val{T: ptypes[i], S: v}
+			}
+			e.sc.decls = append(e.sc.decls, fmt.Sprintf("(declare-fun %s (%s) %s)", name, strings.Join(sorts, " "), e.sortOf(rt)))
+			c3 := c2
+			c3.binds = pb
+			c3.noLocals = true
+			c3.loop = nil
+			c3.depth = ctx.depth + 1
+			c3.st = newState()
+			c3.old = c3.st
+			bv, err := e.eval(&c3, sf.Body)
+			if err != nil {
+				return Val{}, fmt.Errorf("in spec %s: %v", sf.Name, err)
+			}
+			_, bv = e.coerceInts(Val{T: rt}, bv)
+			app := "(" + name + " " + strings.Join(vars, " ") + ")"
+			e.sc.decls = append(e.sc.decls, fmt.Sprintf("(assert (forall (%s) (! (= %s %s) :pattern (%s))))", strings.Join(decl, " "), app, bv.S, app))
+		}
+		var terms []string
+		for _, p := range sf.Params {
+			terms = append(terms, binds[p.Name].S)
+		}
+		return Val{T: rt, S: "(" + name + " " + strings.Join(terms, " ") + ")"}, nil
 	}
 	c2.binds = binds
 	c2.noLocals = true
@@ -1305,10 +1382,34 @@ func (e *Engine) applySpec(ctx *EvalCtx, sf *SpecFn, args []Val) (Val, error) {
 
 // defineIfClosed names a term unless it mentions a quantifier-bound variable.
 func (e *Engine) defineIfClosed(term, sort string) string {
-	if strings.Contains(term, "q.") {
-		return term
-	}
 	return e.define("sa", sort, term)
+}
+
+// hasBound: the term mentions a quantifier-bound variable (q.*) or a spec-axiom parameter (sp.*).
+func hasBound(term string) bool {
+	for i := 0; i+2 < len(term); i++ {
+		if (i == 0 || term[i-1] == ' ' || term[i-1] == '(') && ((term[i] == 'q' && term[i+1] == '.') || (term[i] == 's' && term[i+1] == 'p' && term[i+2] == '.')) {
+			return true
+		}
+	}
+	return false
+}
+
+func pureSorted(t types.Type) bool {
+	switch u := t.Underlying().(type) {
+	case *types.Basic:
+		return true
+	case *types.Struct:
+		for i := 0; i < u.NumFields(); i++ {
+			if !pureSorted(u.Field(i).Type()) {
+				return false
+			}
+		}
+		return true
+	case *types.Array:
+		return pureSorted(u.Elem())
+	}
+	return false
 }
 
 func (e *Engine) evalMethodCall(ctx *EvalCtx, x *Expr) (Val, error) {
@@ -1413,4 +1514,63 @@ func (e *Engine) callPure(ctx *EvalCtx, fn *ssa.Function, args []Val) (Val, erro
 		return Val{T: fn.Signature.Results(), Tuple: vals}, nil
 	}
 	return vals[0], nil
+}
+
+// sliceOffsetOf finds "(+ (s.off X) v)" in term with X closed w.r.t. v and returns "(s.off X)".
+func sliceOffsetOf(term, v string) (string, bool) {
+	const pre = "(+ (s.off "
+	for i := 0; i+len(pre) < len(term); i++ {
+		if !strings.HasPrefix(term[i:], pre) {
+			continue
+		}
+		j := i + len(pre)
+		// balanced X
+		d := 0
+		k := j
+		for k < len(term) {
+			if term[k] == '(' {
+				d++
+			} else if term[k] == ')' {
+				if d == 0 {
+					break
+				}
+				d--
+			} else if term[k] == ' ' && d == 0 {
+				break
+			}
+			k++
+		}
+		if k >= len(term) || term[k] != ')' {
+			continue
+		}
+		x := term[j:k]
+		rest := term[k+1:]
+		if strings.HasPrefix(rest, " "+v+")") && !containsSym(x, v) && !hasBound(x) {
+			return "(s.off " + x + ")", true
+		}
+	}
+	return "", false
+}
+
+func containsSym(term, v string) bool {
+	for i := 0; i+len(v) <= len(term); i++ {
+		if term[i:i+len(v)] == v && (i == 0 || term[i-1] == ' ' || term[i-1] == '(') && (i+len(v) == len(term) || term[i+len(v)] == ' ' || term[i+len(v)] == ')') {
+			return true
+		}
+	}
+	return false
+}
+
+func replaceSym(term, v, by string) string {
+	var b strings.Builder
+	for i := 0; i < len(term); {
+		if i+len(v) <= len(term) && term[i:i+len(v)] == v && (i == 0 || term[i-1] == ' ' || term[i-1] == '(') && (i+len(v) == len(term) || term[i+len(v)] == ' ' || term[i+len(v)] == ')') {
+			b.WriteString(by)
+			i += len(v)
+			continue
+		}
+		b.WriteByte(term[i])
+		i++
+	}
+	return b.String()
 }
